@@ -42,7 +42,8 @@ RULE = (
     " BreakupMomentumSquared(s,m1,m2), BlattWeisskopfSquared(z,2)}; per hash-seed mode"
     " {unset,0,1}: SEQ = all histories of depth <= 3 (4 thorough) over call(e) |"
     " pre-seed(entry file of e, {empty, first half of the valid pickle, well-formed pickle"
-    " of a missing module, (where keys collide) valid pickle of the colliding partner}) |"
+    " of a missing module, well-formed pickle whose reconstruction raises ValueError, (where"
+    " keys collide) valid pickle of the colliding partner}) |"
     " crash(e, every scheduling point), BFS merging"
     " equal directory listings, every call(e) judged in every state incl. those at the"
     " depth bound; SCHED = all interleavings of two callers (pairs e1|e1, e3|e3, e1|e2,"
@@ -122,11 +123,25 @@ def build_extras():
 
     from ampform.dynamics import BlattWeisskopfSquared  # noqa: PLC0415
 
+    from ampform.dynamics import EnergyDependentWidth  # noqa: PLC0415
+    from ampform.dynamics.phasespace import PhaseSpaceFactor, PhaseSpaceFactorAbs  # noqa: PLC0415
+
+    def make_phsp(k):
+        # closures of one factory: same module and qualified name, different behaviour
+        def phsp(s, m1, m2):
+            return (PhaseSpaceFactor if k == 0 else PhaseSpaceFactorAbs)(s, m1, m2) * (k + 1)
+
+        return phsp
+
     phi, theta, z = sp.symbols("phi theta z")
+    s, m0, w0, m1, m2 = sp.symbols("s m0 Gamma0 m1 m2")
     return [
         ("x7", Rotation.D(2, -1, 0, phi, theta, 0)),
         ("x8", Rotation.D(2, -2, 0, phi, theta, 0)),
         ("x9", BlattWeisskopfSquared(z, 1)),
+        # x10/x11: same str, function-valued non-SymPy attributes that share a qualified name
+        ("x10", EnergyDependentWidth(s, m0, w0, m1, m2, 1, 1, phsp_factor=make_phsp(0))),
+        ("x11", EnergyDependentWidth(s, m0, w0, m1, m2, 1, 1, phsp_factor=make_phsp(1))),
     ]
 
 
